@@ -13,7 +13,7 @@ from props import slicer_common as sc
 from props.slicer_common import Fv, vcross, vdot, vsub
 
 ID = "C02"
-TARGETS = ["PW.Props.C02"]
+TARGETS = ["PW.Props.C02", "PW.Props.C02Area"]
 RULE = sc.__doc__.split("\n")[0] + " Inputs as for C01 (pattern / lattice / float / empty streams); additionally every mesh is " \
     "re-sliced (idempotence), sliced with the flipped plane (complementarity, on meshes whose on-plane vertices are exactly " \
     "on the plane), and sliced after a seeded random face permutation and vertex relabeling; non-trivial = at least one face"
